@@ -190,22 +190,25 @@ def mps_scenario(task: dict) -> dict:
                EnergySecondMoment(evaluation_times=T), Fidelity(target, evaluation_times=T), Expectation(obs_op, evaluation_times=T),
                EntanglementEntropy(bond, evaluation_times=T), BitStrings(evaluation_times=T, num_shots=50)]
         rep = {"backend": "mps", "seed": task["seed"], "iteration": it, "n": n, "dim": d, "norm": task["norm"], "canonical": canonical,
-               "bad_atoms": mask.tolist(), "bond": bond}
+               "bad_atoms": mask.tolist(), "bond": bond, "max_bond_dim": None}
         tag = f"mps:{task['norm']}:{'canonical' if canonical else 'noncanonical'}:{'dark' if dark else 'nodark'}"
         try:
             with warnings.catch_warnings():
                 warnings.simplefilter("ignore")
-                cfg = MPSConfig(dt=10.0, precision=1e-9, observables=obs, optimize_qubit_ordering=False, log_level=logging.ERROR)
+                # a binding bond-dimension cap: the held state sits AT the cap, so any observable that truncates an intermediate
+                # (H|psi>, H@H) with the run's own settings departs from its definition
+                cap = int(rng.choice([1024, 1024, 2, 3, 4]))
+                cfg = MPSConfig(dt=10.0, precision=1e-9, max_bond_dim=cap, observables=obs, optimize_qubit_ordering=False, log_level=logging.ERROR)
             impl = create_impl(data, cfg)
             impl.init_dark_qubits()
             impl.init_initial_state(None)
             impl.init_noiseless_hamiltonian()
             # the state the backend holds at the time of the report: arbitrary norm, arbitrary gauge
-            fs = M.rand_factors(rng, ngood, d, int(rng.integers(1, 9)), float(rng.choice([1.0, 0.5])))
+            fs = M.rand_factors(rng, ngood, d, int(rng.integers(1, 9)) if cap == 1024 else cap, float(rng.choice([1.0, 0.5])))
             v = dense.mps_to_vec(fs)
             sc = (float(rng.choice([0.2, 0.7, 1.9, 5.0])) if scaled else 1.0) / np.linalg.norm(v)
             fs[int(rng.integers(0, ngood))] *= sc
-            st = MPS([torch.tensor(f) for f in fs], precision=1e-9, max_bond_dim=1024, eigenstates=eig, num_gpus_to_use=0)
+            st = MPS([torch.tensor(f) for f in fs], precision=1e-9, max_bond_dim=cap, eigenstates=eig, num_gpus_to_use=0)
             if canonical:
                 st.orthogonalize(int(rng.integers(0, ngood)))
             held = M.mps_vec(st)
